@@ -1,11 +1,16 @@
 """C17 — generated opset classes mirror the ONNX operator schemas exactly.
 
 Every public method of every generated OpsetN class is *called* under a recording
-evaluator (the official evaluator seam) with one distinct sentinel per parameter; the
-monitor sees (op.opset, op.name, op.op_schema, args, kwargs) — exactly what eager mode
-and translation use — and an oracle compares that against onnx.defs.
-A second family of cases executes operators eagerly with defaults left out against a bare
-NodeProto without those attributes on ONNX Runtime.
+evaluator (the official evaluator seam) with one distinct sentinel per parameter, then with
+other argument payload kinds (Python lists/tuples, falsy values, arrays), other variadic
+arities, inputs by keyword and falsy explicit attributes; the monitor sees
+(op.opset, op.name, op.op_schema, args, kwargs) — exactly what eager mode and translation
+use — and an oracle compares that against onnx.defs and against the dynamic Opset[...] Op.
+The eager half (vf/c17_eager.py) observes the one-node model each shipped evaluator hands to
+its runtime (every distinct schema once) and executes a table of operators at every schema
+version — legacy opsets, ai.onnx.ml, both evaluators, defaults omitted / explicit attributes /
+Python-list inputs — against a bare NodeProto in an opset-N model; the translation half puts
+the same calls into @script functions and judges the translated model the same way.
 """
 from __future__ import annotations
 
@@ -18,14 +23,35 @@ PID = "C17"
 LEVEL = "exploration"
 RULE = ("exhaustive over every class in onnxscript.onnx_opset.all_opsets and every public method: called "
         "through evaluator.default_as(recorder) with distinct sentinels (all given / optionals omitted / each "
-        "attribute omitted / middle optional omitted); oracle = onnx.defs.get_schema(op, N, domain); dynamic "
+        "attribute omitted / middle optional omitted; variadic arity 0,1,2,3; inputs by keyword), then with argument "
+        "*payload kinds* in the input positions (Python list, tuple, 1-element list, empty list/tuple, 0, 0.0, False, "
+        "'', ndarray, 0-d ndarray; a lone sequence argument of a variadic-only operator included) and falsy explicit "
+        "attribute values, each argument must arrive as ONE input/attribute by identity; the same call through the "
+        "dynamic Opset[...] Op must reach the evaluator with identical arguments; "
+        "oracle = onnx.defs.get_schema(op, N, domain); dynamic "
         "lookup (__getattr__/__getitem__/__contains__) queried for every schema name and 200 non-names; "
-        "completeness for N<=23; plus eager execution with defaults omitted vs bare NodeProto on ORT. "
-        "non-trivial = method with >=1 attribute or optional input; distinct = (domain, op, since_version)")
+        "completeness for N<=23. Eager half: every distinct schema (domain, op, since_version) is called once with "
+        "synthetic typed inputs under each shipped evaluator (ORTEvaluator, OnnxReferenceRuntimeEvaluator) and the "
+        "one-node ModelProto handed to the runtime is judged (node identity, opset import resolves to the schema of "
+        "(op, N), omitted attributes absent or equal to the schema default, inputs one per argument); a table of "
+        "~140 operator entries (default domain opset 1..23 incl. the legacy attribute spellings, ai.onnx.ml 1..5) is "
+        "executed eagerly at every schema version under both evaluators in the forms minimal (defaults omitted) / "
+        "explicit (non-default attributes) vs a bare NodeProto in an opset-N model on the same runtime, and with "
+        "Python-list inputs static method vs dynamic lookup. Translation half: the same table entries as the whole "
+        "body of a @script function per opset class: the translated model imports (domain, N), holds one node that "
+        "resolves to get_schema(op, N, domain) with the given attributes and no non-default omitted ones, and on ORT "
+        "computes what the bare node computes. "
+        "non-trivial = method with >=1 attribute or optional input; distinct = (domain, op, since_version[, form, evaluator])")
 ASSUMPTIONS = [
     "onnx.defs of the installed onnx package is the ground truth for schemas",
     "deprecated operators (schema.deprecated at version N) are outside the property: counted, not judged",
     "the recording evaluator is installed through the public evaluator.default_as seam and returns None",
+    "the model an eager call evaluates is the ModelProto its evaluator passes to onnxruntime.InferenceSession / "
+    "onnx.reference.ReferenceEvaluator (observed by pass-through wrappers on those two constructors)",
+    "ORT decides validity of a bare node (load/run failure => case discarded); under the reference evaluator the "
+    "twin node carries the onnx.defs defaults explicitly (equivalent by the ONNX spec) because onnx.reference "
+    "mishandles some omitted/explicit defaults; a mismatch there is eager-on-ref vs node-on-ref, same runtime",
+    "execution table inputs are fixed, UB-free tensors; Dropout in training mode is not compared",
 ]
 ANCHORS = [
     "onnxscript._internal.values:Opset._prepare_inputs",
@@ -33,6 +59,7 @@ ANCHORS = [
     "onnxscript._internal.values:Opset.__getitem__",
     "onnxscript._internal.values:Opset.__contains__",
     "onnxscript._internal.values:Op.__call__",
+    "onnxscript._internal.evaluator:_prepare_model_and_inputs_for_eager",
 ]
 TIMEOUT = 600.0
 
@@ -42,8 +69,17 @@ def EXHAUSTIVE(tier):
 
 
 def thresholds(tier):
-    return {"method_calls": 5000, "methods": 2000, "exec_compared": 40,
-            "anchor:onnxscript._internal.values:Opset._prepare_inputs": 5000}
+    # each <= 1/5 of what the unchanged tree gives in the quick tier (seeds 0,1,2,3,7)
+    return {"method_calls": 5000, "methods": 2000, "methods_wide": 220, "exec_compared": 220,
+            "payload_calls": 2500, "lone_sequence_variadic_calls": 50, "variadic_arity_calls": 40,
+            "attr_payload_calls": 850, "keyword_calls": 200, "static_dynamic_compared": 420,
+            "eager_model_probes": 160, "eager_models_seen": 380, "eager_models_seen_ort": 150, "eager_models_seen_ref": 200,
+            "exec_compared_ort": 100, "exec_compared_ref": 110, "exec_compared_explicit": 75,
+            "exec_compared_legacy": 120, "exec_compared_pre7": 45, "exec_compared_ml": 4,
+            "literal_static_dynamic_values": 75, "literal_lone_variadic": 4,
+            "translate_models_judged": 130, "translate_compared": 110,
+            "anchor:onnxscript._internal.values:Opset._prepare_inputs": 5000,
+            "anchor:onnxscript._internal.evaluator:_prepare_model_and_inputs_for_eager": 400}
 
 
 def _all_opsets():
@@ -57,13 +93,15 @@ def cases(tier, seed):
 
     out = []
     for (domain, version) in sorted(_all_opsets()):
-        out.append({"kind": "class", "domain": domain, "version": version})
+        out.append({"kind": "class", "domain": domain, "version": version, "seed": seed})
     out.append({"kind": "dynamic"})
-    # execution sample: (op, version) pairs with non-trivial defaults
-    vers = list(range(13, 24)) if tier == "thorough" else [13, 18, 21, 23]
-    for name in sorted(EXEC_TABLE):
-        for v in vers:
-            out.append({"kind": "exec", "op": name, "version": v, "seed": seed})
+    for (domain, version) in sorted(_all_opsets()):
+        if domain in ("", "ai.onnx.ml"):
+            out.append({"kind": "translate", "domain": domain, "version": version, "seed": seed})
+    # execution: table operators at every schema version (quick) / every class version (thorough)
+    from . import c17_eager
+
+    out.extend(c17_eager.exec_specs(tier, seed))
     return out
 
 
@@ -112,12 +150,16 @@ def _schema_key(s):
     return (s.domain, s.name, s.since_version)
 
 
-def check_class(domain, version):
+def check_class(domain, version, seed=0):
     import onnx
     from onnx.defs import OpSchema
 
+    from onnxscript import values
     from onnxscript._internal import evaluator
 
+    from . import common
+
+    thorough = tier_is_thorough()
     inst = _all_opsets()[(domain, version)]
     cls = type(inst)
     viol, events = [], {}
@@ -133,6 +175,7 @@ def check_class(domain, version):
         v(f"class;{domain};{version};identity", f"all_opsets[{domain!r},{version}] is {inst!r}")
     names = [n for n in dir(cls) if not n.startswith("_") and inspect.isfunction(getattr(cls, n, None))]
     rec = Recorder()
+    base = values.Opset(domain, version)  # dynamic-only instance of the base class
     for name in names:
         meth = getattr(inst, name)
         try:
@@ -198,11 +241,11 @@ def check_class(domain, version):
                 min_in = i + 1
         required_attrs = {a for a, s in attrs.items() if s.required}
 
-        def call(pargs, kw, label):
+        def call(pargs, kw, label, in_kw=None):
             rec.log.clear()
             try:
                 with evaluator.default_as(rec):
-                    meth(*pargs, **{attr_py[k]: x for k, x in kw.items()})
+                    meth(*pargs, **(in_kw or {}), **{attr_py[k]: x for k, x in kw.items()})
             except Exception as e:
                 v(f"call_raises;{key0};{label}", f"{cls.__name__}.{name} {label}: {type(e).__name__}: {e}", version=version)
                 return None
@@ -282,6 +325,93 @@ def check_class(domain, version):
                 if len(args) != len(pargs) or args[min_in] is not None or any(
                         (a is not b) for i, (a, b) in enumerate(zip(args, pargs)) if i != min_in):
                     v(f"trim_middle;{key0}", f"{cls.__name__}.{name}: middle optional omitted gives args={args!r}", version=version)
+        # Forms (5)-(9) exercise the method body and the shared helpers, not the schema binding: an inherited method is
+        # the same function object as in the class that defines it, so the quick tier runs them for the methods a class
+        # defines itself plus a seed-rotated sixth of the inherited ones; thorough runs them everywhere.
+        wide = thorough or name in cls.__dict__ or common.h32(PID, seed, name, version) % 6 == 0
+        if wide:
+            hit("methods_wide")
+        # (5) variadic arity 0 / 1 / 3 (form (1) used 2): every actual is one input
+        if var and wide:
+            for k in (0, 1, 3):
+                vs = [Sent(f"var{k}.{j}") for j in range(k)]
+                r = call(in_sent + vs, at_sent, f"variadic_arity:{k}")
+                hit("variadic_arity_calls")
+                if r is not None:
+                    _, args, _ = r
+                    exp_args = in_sent + vs
+                    if len(args) != len(exp_args) or any(a is not b for a, b in zip(args, exp_args)):
+                        v(f"forward_inputs;{key0};arity", f"{cls.__name__}.{name}: {k} variadic actuals give args {args!r}, "
+                          f"expected {exp_args!r}", version=version)
+        # (6) argument payload kinds: whatever Python object sits in an input position is ONE input (a list/tuple is a
+        #     tensor literal or a sequence value; falsy values are not omissions — only None is)
+        if (pos or var) and wide:
+            for kind, mk in PAYLOADS:
+                for k in ((1, 2) if var else (0,)):
+                    pargs = [mk(f"{kind}:in{i}") for i in range(len(pos))] + [mk(f"{kind}:var{j}") for j in range(k)]
+                    r = call(pargs, at_sent, f"payload:{kind}")
+                    hit("payload_calls")
+                    if var and not pos and k == 1 and kind in SEQ_KINDS:
+                        hit("lone_sequence_variadic_calls")
+                    if r is not None:
+                        _, args, _ = r
+                        if len(args) != len(pargs) or any(a is not b for a, b in zip(args, pargs)):
+                            v(f"forward_payload;{key0};{kind}", f"{cls.__name__}.{name}: arguments {pargs!r} ({kind} in every "
+                              f"input position) reach the evaluator as {args!r}", version=version)
+        # (7) explicit falsy attribute values are forwarded as given (not replaced by the default, not dropped)
+        if attrs and wide:
+            for kind, mk in ATTR_PAYLOADS:
+                kw = {a: mk() for a in attrs}
+                r = call(in_sent + var_sent, kw, f"attr_payload:{kind}")
+                hit("attr_payload_calls")
+                if r is not None:
+                    _, _, kwargs = r
+                    for a, x in kw.items():
+                        if a not in kwargs or kwargs[a] is not x:
+                            v(f"forward_attr_payload;{key0};{a};{kind}", f"{cls.__name__}.{name}: {a}={x!r} given explicitly arrives as "
+                              f"{kwargs.get(a, '<absent>')!r}", version=version)
+        # (8) inputs by keyword = inputs by position
+        if pos and not var and wide:
+            r = call([], dict(at_sent), "keyword_inputs", in_kw={p.name: sx for p, sx in zip(pos, in_sent)})
+            hit("keyword_calls")
+            if r is not None:
+                _, args, kwargs = r
+                if len(args) != len(in_sent) or any(a is not b for a, b in zip(args, in_sent)):
+                    v(f"forward_inputs;{key0};keyword", f"{cls.__name__}.{name}: inputs passed by keyword arrive as {args!r}", version=version)
+                for a, sx in at_sent.items():
+                    if kwargs.get(a) is not sx:
+                        v(f"forward_attr;{key0};{a}", f"{cls.__name__}.{name}: inputs by keyword, attribute {a} arrives as {kwargs.get(a)!r}",
+                          version=version)
+        # (9) static method vs dynamic lookup: the same call reaches the evaluator with the same arguments
+        dyn = base[name] if wide else None
+        if dyn is not None:
+            forms = [("sentinels", in_sent + var_sent)]
+            if pos or var:
+                forms.append(("lists", [[Sent(f"l{i}a"), Sent(f"l{i}b")] for i in range(len(pos) + (1 if var else 0))]))
+            for label, pargs in forms:
+                r1 = call(pargs, at_sent, f"static:{label}")
+                r1 = None if r1 is None else (r1[0], list(r1[1]), dict(r1[2]))
+                rec.log.clear()
+                try:
+                    with evaluator.default_as(rec):
+                        dyn(*pargs, **at_sent)
+                    r2 = rec.log[0] if len(rec.log) == 1 else None
+                except Exception as e:
+                    r2 = None
+                    v(f"dyn_call_raises;{key0}", f"Opset({domain!r},{version})[{name!r}](...) raises {type(e).__name__}: {e}", version=version)
+                if r1 is None or r2 is None:
+                    continue
+                hit("static_dynamic_compared")
+                same = (len(r1[1]) == len(r2[1]) and all(a is b for a, b in zip(r1[1], r2[1]))
+                        and set(r1[2]) == set(r2[2]) and all(r1[2][k] is r2[2][k] for k in r1[2])
+                        and r2[0].op_schema is not None and _schema_key(r1[0].op_schema) == _schema_key(r2[0].op_schema))
+                if not same:
+                    v(f"static_dynamic;{key0};{label}", f"{cls.__name__}.{name} and Opset({domain!r},{version})[{name!r}] called with the same "
+                      f"arguments ({label}) reach the evaluator with {r1[1]!r} {sorted(r1[2])} vs {r2[1]!r} {sorted(r2[2])}", version=version)
+        # (10) eager model probe, once per distinct schema: the class where the operator (version) first appears
+        if truth.since_version == version:
+            evs = ("ref", "ort") if thorough or common.h32(PID, seed, "probe", name, version) % 3 == 0 else ("ref",)
+            _probe_eager_model(inst, name, truth, attr_py, version, hit, v, evs)
         if attrs or len(pos) > min_in:
             sigs.add(f"{domain}:{name}:{truth.since_version}")
         if len(samples) < 2 and attrs:
@@ -303,6 +433,48 @@ def check_class(domain, version):
                   version=version)
     return {"status": "ok", "viol": viol, "events": events, "nontrivial": True,
             "sig": None, "data": {"sigs": sorted(sigs)}, "sample": samples[0] if samples else None}
+
+
+SEQ_KINDS = ("list", "tuple", "list1", "empty_list", "empty_tuple")
+PAYLOADS = [
+    ("list", lambda t: [Sent(t + ".a"), Sent(t + ".b")]),
+    ("tuple", lambda t: (Sent(t + ".a"), Sent(t + ".b"))),
+    ("list1", lambda t: [Sent(t)]),
+    ("empty_list", lambda t: []),
+    ("empty_tuple", lambda t: ()),
+    ("zero", lambda t: 0),
+    ("fzero", lambda t: 0.0),
+    ("false", lambda t: False),
+    ("empty_str", lambda t: ""),
+    ("ndarray", lambda t: np.zeros((2,), np.float32)),
+    ("ndarray0d", lambda t: np.array(0.0, np.float32)),
+]
+ATTR_PAYLOADS = [
+    ("zero", lambda: 0), ("fzero", lambda: 0.0), ("false", lambda: False), ("empty_str", lambda: ""),
+    ("empty_list", lambda: []), ("empty_tuple", lambda: ()),
+]
+
+
+def _probe_eager_model(inst, name, truth, attr_py, version, hit, v, evnames):
+    """Call the method for real under each shipped evaluator and judge the model it hands to the runtime."""
+    from . import c17_eager
+
+    sa = c17_eager.synth_args(truth)
+    if sa is None:
+        hit("eager_probe_unsynthesised")
+        return
+    args, attrs = sa
+    dom = truth.domain
+    for evname in evnames:
+        hit("eager_model_probes")
+        st, out, models = c17_eager.eager_call(getattr(inst, name), args, {attr_py[k]: x for k, x in attrs.items()}, evname)
+        if not models:
+            hit("eager_model_unobserved")   # refused before a model was built (Loop/Scan body arity, Split arity, ...)
+            continue
+        hit("eager_models_seen")
+        hit(f"eager_models_seen_{evname}")
+        for kind, txt in c17_eager.judge_model(models[0], truth, attrs, args):
+            v(f"eager_model;{evname};{dom};{kind}", f"{type(inst).__name__}.{name} eager on {evname}: {txt}", version=version, op=name)
 
 
 _TIER = None
@@ -370,170 +542,25 @@ def check_dynamic():
     return {"status": "ok", "viol": viol, "events": events, "nontrivial": True, "sig": "dynamic"}
 
 
-# ---------------------------------------------------------------- execution sample
-def _f(*shape, seed=0):
-    r = np.random.default_rng(seed)
-    return (r.standard_normal(shape) * 2).astype(np.float32)
+def worker_init():
+    from . import c17_eager
 
-
-EXEC_TABLE = {
-    # op: (inputs builder, number of outputs)
-    "Gemm": (lambda: [_f(3, 4), _f(4, 5, seed=1), _f(5, seed=2)], 1),
-    "LeakyRelu": (lambda: [_f(3, 4)], 1),
-    "Elu": (lambda: [_f(3, 4)], 1),
-    "Selu": (lambda: [_f(3, 4)], 1),
-    "HardSigmoid": (lambda: [_f(3, 4)], 1),
-    "Softmax": (lambda: [_f(2, 3, 4)], 1),
-    "LogSoftmax": (lambda: [_f(2, 3, 4)], 1),
-    "Hardmax": (lambda: [_f(2, 3, 4)], 1),
-    "Flatten": (lambda: [_f(2, 3, 4)], 1),
-    "ArgMax": (lambda: [_f(2, 3, 4)], 1),
-    "ArgMin": (lambda: [_f(2, 3, 4)], 1),
-    "ReduceSum": (lambda: [_f(2, 3, 4)], 1),
-    "ReduceMean": (lambda: [_f(2, 3, 4)], 1),
-    "ReduceMax": (lambda: [_f(2, 3, 4)], 1),
-    "ReduceL2": (lambda: [_f(2, 3, 4)], 1),
-    "Gather": (lambda: [_f(3, 4), np.array([2, 0], np.int64)], 1),
-    "GatherElements": (lambda: [_f(3, 4), np.array([[2, 0, 1, 1]], np.int64)], 1),
-    "TopK": (lambda: [_f(3, 5), np.array([2], np.int64)], 2),
-    "CumSum": (lambda: [_f(3, 4), np.array(1, np.int64)], 1),
-    "Transpose": (lambda: [_f(2, 3, 4)], 1),
-    "Shape": (lambda: [_f(2, 3, 4)], 1),
-    "Trilu": (lambda: [_f(4, 4)], 1),
-    "IsInf": (lambda: [np.array([1.0, np.inf, -np.inf, np.nan], np.float32)], 1),
-    "OneHot": (lambda: [np.array([0, 2, 1], np.int64), np.array(3, np.int64), np.array([0, 1], np.float32)], 1),
-    "ThresholdedRelu": (lambda: [_f(3, 4)], 1),
-    "Celu": (lambda: [_f(3, 4)], 1),
-    "Shrink": (lambda: [_f(3, 4)], 1),
-    "LpNormalization": (lambda: [_f(3, 4)], 1),
-    "MeanVarianceNormalization": (lambda: [_f(2, 3, 4, 4)], 1),
-    "Mod": (lambda: [np.array([5, -5, 7], np.int64), np.array([3, 3, -4], np.int64)], 1),
-    "Pad": (lambda: [_f(3, 4), np.array([1, 0, 0, 2], np.int64)], 1),
-    "InstanceNormalization": (lambda: [_f(2, 3, 4), _f(3, seed=1), _f(3, seed=2)], 1),
-    "LayerNormalization": (lambda: [_f(2, 3, 4), _f(4, seed=1), _f(4, seed=2)], 1),
-    "LRN": (None, 1),
-    "Split": (lambda: [_f(4, 6)], 2),
-    "Squeeze": (lambda: [_f(1, 3, 1)], 1),
-    "ScatterElements": (lambda: [_f(3, 3), np.array([[1, 0, 2]], np.int64), _f(1, 3, seed=3)], 1),
-    "ScatterND": (lambda: [_f(4, 3), np.array([[1], [3]], np.int64), _f(2, 3, seed=3)], 1),
-    "DepthToSpace": (None, 1),
-    "EyeLike": (lambda: [_f(3, 4)], 1),
-    "Unique": (lambda: [np.array([2, 1, 1, 3, 4, 3], np.int64)], 4),
-    "NonMaxSuppression": (lambda: [np.array([[[0, 0, 1, 1], [0, 0.1, 1, 1.1], [0, 10, 1, 11]]], np.float32),
-                                   np.array([[[0.9, 0.75, 0.6]]], np.float32), np.array([3], np.int64),
-                                   np.array([0.5], np.float32), np.array([0.0], np.float32)], 1),
-    "QuantizeLinear": (lambda: [_f(3, 4), np.array(0.5, np.float32), np.array(3, np.uint8)], 1),
-    "DequantizeLinear": (lambda: [np.arange(12, dtype=np.uint8).reshape(3, 4), np.array(0.5, np.float32), np.array(3, np.uint8)], 1),
-    "MaxPool": (None, 1),
-    "AveragePool": (None, 1),
-    "Conv": (None, 1),
-    "ConvTranspose": (None, 1),
-    "BatchNormalization": (lambda: [_f(2, 3, 4), _f(3, seed=1), _f(3, seed=2), _f(3, seed=3), np.abs(_f(3, seed=4))], 1),
-    "Resize": (None, 1),
-    "Clip": (lambda: [_f(3, 4)], 1),
-    "GlobalLpPool": (lambda: [_f(1, 2, 3, 3)], 1),
-    "ReverseSequence": (lambda: [_f(4, 3), np.array([1, 2, 4], np.int64)], 1),
-    "Compress": (lambda: [_f(3, 4), np.array([True, False, True])], 1),
-    "Concat": (None, 1),
-    "SpaceToDepth": (None, 1),
-    "GatherND": (lambda: [_f(2, 3, 4), np.array([[0, 1], [1, 2]], np.int64)], 1),
-    "Range": (lambda: [np.array(1, np.int64), np.array(9, np.int64), np.array(2, np.int64)], 1),
-    "Einsum": (None, 1),
-    "RoiAlign": (lambda: [_f(1, 2, 6, 6), np.array([[0, 0, 4, 4], [1, 1, 5, 5]], np.float32), np.array([0, 0], np.int64)], 1),
-    "GridSample": (lambda: [_f(1, 2, 4, 4), (np.random.default_rng(5).random((1, 3, 3, 2)) * 2 - 1).astype(np.float32)], 1),
-    "Bernoulli": (None, 1),
-    "Dropout": (lambda: [_f(3, 4)], 2),
-    "Gelu": (lambda: [_f(3, 4)], 1),
-    "Mish": (lambda: [_f(3, 4)], 1),
-    "HardSwish": (lambda: [_f(3, 4)], 1),
-    "Softplus": (lambda: [_f(3, 4)], 1),
-    "BitShift": (None, 1),
-    "CastLike": (lambda: [_f(3, 4), np.array(1, np.int32)], 1),
-    "IsNaN": (lambda: [np.array([1.0, np.nan], np.float32)], 1),
-    "Det": (lambda: [_f(3, 3)], 1),
-    "STFT": (None, 1),
-    "DFT": (None, 1),
-    "AffineGrid": (lambda: [_f(1, 2, 3), np.array([1, 1, 3, 3], np.int64)], 1),
-    "RMSNormalization": (lambda: [_f(2, 3, 4), _f(4, seed=1)], 1),
-    "ReduceLogSumExp": (lambda: [_f(2, 3, 4)], 1),
-    "ReduceProd": (lambda: [_f(2, 3)], 1),
-    "Size": (lambda: [_f(2, 3)], 1),
-    "NonZero": (lambda: [np.array([[1, 0], [0, 2]], np.float32)], 1),
-    "Tile": (lambda: [_f(2, 3), np.array([2, 1], np.int64)], 1),
-    "Where": (lambda: [np.array([True, False, True]), _f(3), _f(3, seed=1)], 1),
-    "SequenceEmpty": (None, 1),
-    "MatMulInteger": (lambda: [np.arange(6, dtype=np.uint8).reshape(2, 3), np.arange(6, dtype=np.uint8).reshape(3, 2)], 1),
-    "Swish": (lambda: [_f(3, 4)], 1),
-}
-EXEC_TABLE = {k: v for k, v in EXEC_TABLE.items() if v[0] is not None}
-
-
-def check_exec(opname, version, seed):
-    """Eager call with every optional attribute omitted vs a bare NodeProto on ORT."""
-    import onnx
-    from onnx import helper
-
-    from . import compare, runner
-
-    ops = _all_opsets()
-    inst = ops.get(("", version))
-    try:
-        schema = onnx.defs.get_schema(opname, version, "")
-    except Exception:
-        return {"status": "no_schema", "events": {"exec_no_schema": 1}}
-    if schema.deprecated or not hasattr(inst, opname):
-        return {"status": "no_schema", "events": {"exec_no_schema": 1}}
-    if any(a.required for a in schema.attributes.values()):
-        return {"status": "skipped_required_attr"}
-    inputs = EXEC_TABLE[opname][0]()
-    # keep only as many inputs as the schema at this version takes
-    max_in = len(schema.inputs)
-    if not (schema.inputs and schema.inputs[-1].option == onnx.defs.OpSchema.FormalParameterOption.Variadic):
-        inputs = inputs[:max_in]
-    nout = min(EXEC_TABLE[opname][1], len(schema.outputs))
-    # bare node
-    in_names = [f"i{k}" for k in range(len(inputs))]
-    out_names = [f"o{k}" for k in range(nout)]
-    node = helper.make_node(opname, in_names, out_names)
-    g = helper.make_graph([node], "g", [helper.make_tensor_value_info(n, helper.np_dtype_to_tensor_dtype(x.dtype), list(x.shape))
-                                        for n, x in zip(in_names, inputs)],
-                          [helper.make_empty_tensor_value_info(n) for n in out_names])
-    m = helper.make_model(g, opset_imports=[helper.make_opsetid("", version)], ir_version=10)
-    st, bare = runner.ort_run(m, dict(zip(in_names, inputs)))
-    if st != "ok":
-        return {"status": "bare_" + st, "events": {"exec_bare_unrunnable": 1}, "data": {"msg": str(bare)[:200]}}
-    try:
-        got = getattr(inst, opname)(*inputs)
-    except Exception as e:
-        msg = f"{type(e).__name__}: {e}"
-        if runner.classify(msg) == "not_implemented":
-            return {"status": "eager_not_implemented", "events": {"exec_eager_not_implemented": 1}}
-        if "number of expected outputs" in msg:  # documented eager-mode refusal (output arity unknown)
-            return {"status": "eager_refused", "events": {"exec_eager_refused": 1}}
-        return {"status": "ok", "events": {"exec_compared": 1}, "nontrivial": True, "sig": f"exec:{opname}:{schema.since_version}",
-                "viol": [{"key": f"exec_eager_fails;{opname}", "what": f"opset{version}.{opname} eager with defaults omitted raises {msg[:300]} "
-                          f"while a bare node runs", "detail": {"version": version}}]}
-    got = got if isinstance(got, (tuple, list)) and not isinstance(got, np.ndarray) else [got]
-    got = [runner.as_np(x) for x in got][:nout]
-    viol = []
-    nondet = opname in ("Dropout", "Bernoulli")
-    d = compare.compare_outputs(got, bare[:len(got)], check_dtype=True) if not nondet else None
-    if d:
-        viol.append({"key": f"exec_mismatch;{opname}", "what": f"opset{version}.{opname}(defaults omitted) eager != bare node: {d}",
-                     "detail": {"version": version}})
-    return {"status": "ok", "viol": viol, "events": {"exec_compared": 1}, "nontrivial": True,
-            "sig": f"exec:{opname}:{schema.since_version}",
-            "sample": {"exec": opname, "version": version, "since": schema.since_version,
-                       "attrs_defaulted": sorted(schema.attributes)}}
+    c17_eager.ensure_hooks()
 
 
 def run_case(spec):
     k = spec["kind"]
     if k == "class":
-        return check_class(spec["domain"], spec["version"])
+        return check_class(spec["domain"], spec["version"], spec.get("seed", 0))
     if k == "dynamic":
         return check_dynamic()
-    return check_exec(spec["op"], spec["version"], spec["seed"])
+    from . import c17_eager
+
+    if k == "translate":
+        return c17_eager.check_translate(spec["domain"], spec["version"], spec["seed"], tier_is_thorough())
+    evs = ("ort", "ref")
+    return c17_eager.check_exec(spec["op"], spec["version"], spec["seed"], evs,
+                                literal_on=evs if tier_is_thorough() else ("ref",))
 
 
 def finalize(ctx):
